@@ -48,6 +48,8 @@ func rulesC15(c *Ctx) {
 	// the witness a proof was spent with is reported by the state check: the nullable column is carried into the row
 	// and read on the side where it is valid
 	c.scannedLocalsReachResult("R5", "GetProofsUsed", "GetPendingProofs", "GetPendingProofsByQuote")
+	R.Rule("R11", "restore knows every signature the mint hands out: blind signatures are produced only inside the swap and mint operations, whose save-before-hand-out is decided above (who-signs census shared with C02.R16; a new signing path - melt change - is not examined)", 3)
+	c.ruleWhoSigns("R11")
 	R.Rule("R10", "state check and restore answer from the tables as they are now: neither endpoint is served from the mint's response cache (shared with C20.R4; a cached answer hides what was spent or signed since)", 10)
 	c.runAs("R4", "R10", func(cc *Ctx) { cc.c20Cache() })
 }
